@@ -520,6 +520,7 @@ type Config struct {
 	Verbose    bool
 	Name       string
 	Short      bool // -short: a fifth of the checks (and of the state-machine steps)
+	DebugVis   bool // -rapid.debugvis: the shrinker also writes its visualization (vis-<name>.html in the working directory)
 	KeepFlags  bool // do not touch the flags: this Check runs with whatever the previous one in the process left behind
 }
 
@@ -557,6 +558,7 @@ func setFlags(cfg Config) {
 	must(flag.Set("rapid.failfile", cfg.FailFile))
 	must(flag.Set("rapid.v", fmt.Sprint(cfg.Verbose)))
 	must(flag.Set("test.short", fmt.Sprint(cfg.Short)))
+	must(flag.Set("rapid.debugvis", fmt.Sprint(cfg.DebugVis)))
 	if cfg.ShrinkMS < 0 {
 		must(flag.Set("rapid.shrinktime", "1h"))
 	} else {
